@@ -1,34 +1,96 @@
 """Behaviour-preserving changes of /repo (seeded/benign/*.diff) must NOT raise any alarm: each patch is applied to a scratch worktree, the repository's tests
 must pass, and every selected quick check must exit 0 against the patched tree (KNOWN-FINDING lines are fine, VIOLATION lines and crashes are not).
+
+A refactoring written against an older commit that no longer applies to HEAD (later `fix:` commits touched the same lines) is judged DIFFERENTIALLY on the
+commit it was written for: the checks run against that base commit and against base + patch, and the patched tree may not produce any violation key (or
+crash) that the base does not produce as well (the base lacks later fixes, so it legitimately violates some properties - identically with and without a
+behaviour-preserving patch).
 usage: python tools/benign_check.py [--only NAME ...] [--checks C01 ...]"""
-import argparse, glob, json, os, shutil, subprocess, sys
+import argparse, glob, json, os, re, shutil, subprocess, sys
 VERIF = os.path.dirname(os.path.dirname(os.path.abspath(__file__)))
 ALL = ['C%02d' % i for i in range(1, 21)]
 ap = argparse.ArgumentParser(); ap.add_argument('--only', nargs='*'); ap.add_argument('--checks', nargs='*', default=ALL); a = ap.parse_args()
-results = json.load(open(os.path.join(VERIF, 'seeded', 'benign', 'result.json'))) if os.path.exists(os.path.join(VERIF, 'seeded', 'benign', 'result.json')) else {}
+RES = os.path.join(VERIF, 'seeded', 'benign', 'result.json')
+results = json.load(open(RES)) if os.path.exists(RES) else {}
+baselines = results.setdefault('_baselines', {})        # {commit: {check: [keys]}}: what the checks of this /verif say about an older commit of /repo
+
+
+def git(*args, cwd='/repo', check=False):
+    return subprocess.run(['git', '-C', cwd] + list(args), capture_output=True, text=True, check=check)
+
+
+def base_commit(diff):
+    """the newest commit of /repo whose bronzebeard/asm.py (or dfu.py) is the pre-image the patch was written against"""
+    text = open(diff).read()
+    want = re.findall(r'^diff --git a/(\S+) b/\S+\nindex ([0-9a-f]+)\.\.', text, re.M)
+    for c in git('log', '--format=%H').stdout.split():
+        if all(git('rev-parse', '%s:%s' % (c, f)).stdout.startswith(blob) for f, blob in want):
+            return c
+    return None
+
+
+def worktree(path, commit):
+    git('worktree', 'remove', '--force', path)
+    shutil.rmtree(path, ignore_errors=True)
+    git('worktree', 'add', '--detach', path, commit, check=True)
+
+
+def drop(path):
+    git('worktree', 'remove', '--force', path)
+    shutil.rmtree(path, ignore_errors=True); shutil.rmtree(path + '.out', ignore_errors=True)
+
+
+def run_check(c, wt):
+    env = dict(os.environ, VERIF_REPO=wt, VERIF_OUT=wt + '.out', VERIF_SEED='2')
+    p = subprocess.run(['/venv/bin/python', '-m', 'mc.run', c, '--tier', 'quick'], cwd=VERIF, env=env, capture_output=True, text=True)
+    keys = sorted(set(re.findall(r'^\s+key=(\S+)', p.stdout, re.M)))
+    return p, keys
+
+
+verif_rev = subprocess.run(['git', '-C', VERIF, 'rev-parse', 'HEAD'], capture_output=True, text=True).stdout.strip()
 for diff in sorted(glob.glob(os.path.join(VERIF, 'seeded', 'benign', '*.diff'))):
     name = os.path.basename(diff)[:-5]
     if a.only and name not in a.only:
         continue
     wt = '/tmp/bn_' + name
-    subprocess.run(['git', '-C', '/repo', 'worktree', 'remove', '--force', wt], capture_output=True)
-    shutil.rmtree(wt, ignore_errors=True)
-    subprocess.run(['git', '-C', '/repo', 'worktree', 'add', '--detach', wt, 'HEAD'], capture_output=True, check=True)
+    head = git('rev-parse', 'HEAD').stdout.strip()
+    base = head if git('apply', '--check', diff).returncode == 0 else base_commit(diff)
+    if base is None:
+        results[name] = dict(error='patch applies neither to HEAD nor to any commit of /repo'); continue
     try:
-        ap_ = subprocess.run(['git', '-C', wt, 'apply', diff], capture_output=True, text=True)
+        if base != head:
+            # what do the checks say about the base commit itself?  (cached per base commit and /verif revision)
+            bl = baselines.setdefault(base, {})
+            if bl.get('_verif') != verif_rev:
+                bl.clear(); bl['_verif'] = verif_rev
+            todo = [c for c in a.checks if c not in bl]
+            if todo:
+                worktree(wt + '_base', base)
+                for c in todo:
+                    p, keys = run_check(c, wt + '_base')
+                    bl[c] = dict(exit=p.returncode, keys=keys)
+                drop(wt + '_base')
+        worktree(wt, base)
+        ap_ = git('apply', diff, cwd=wt)
         if ap_.returncode:
             results[name] = dict(error='apply: ' + ap_.stderr[-200:]); continue
         t = subprocess.run(['/venv/bin/python', '-m', 'pytest', '-q', '-p', 'no:cacheprovider', '-x'], cwd=wt, capture_output=True, text=True)
-        res = dict(tests_pass=t.returncode == 0, alarms={})
-        env = dict(os.environ, VERIF_REPO=wt, VERIF_OUT=wt + '.out', VERIF_SEED='2')
+        res = dict(tests_pass=t.returncode == 0, alarms={}, judged_on=base[:7] + (' (HEAD)' if base == head else ' (differential: the commit the patch was written for)'))
         for c in a.checks:
-            p = subprocess.run(['/venv/bin/python', '-m', 'mc.run', c, '--tier', 'quick'], cwd=VERIF, env=env, capture_output=True, text=True)
-            if p.returncode != 0:
-                res['alarms'][c] = dict(exit=p.returncode, lines=[l[:300] for l in p.stdout.splitlines() if l.startswith('VIOLATION') or l.strip().startswith('key=')][:6], tail=(p.stdout + p.stderr)[-400:] if p.returncode == 2 else '')
+            p, keys = run_check(c, wt)
+            if base == head:
+                bad = p.returncode != 0
+                new = keys
+            else:
+                b = baselines[base][c]
+                new = [k for k in keys if k not in b['keys']]
+                bad = bool(new) or (p.returncode == 2 and b['exit'] != 2)
+            if bad:
+                res['alarms'][c] = dict(exit=p.returncode, new_keys=new[:8], lines=[l[:300] for l in p.stdout.splitlines() if l.strip().startswith('key=') and any(k in l for k in new)][:6],
+                                        tail=(p.stdout + p.stderr)[-400:] if p.returncode == 2 else '')
         results[name] = res
-        print(name, 'tests_pass=%s' % res['tests_pass'], 'ALARMS: %s' % sorted(res['alarms']) if res['alarms'] else 'silent on %d checks' % len(a.checks), flush=True)
+        print(name, 'on', res['judged_on'], 'tests_pass=%s' % res['tests_pass'], 'ALARMS: %s' % sorted(res['alarms']) if res['alarms'] else 'silent on %d checks' % len(a.checks), flush=True)
     finally:
-        subprocess.run(['git', '-C', '/repo', 'worktree', 'remove', '--force', wt], capture_output=True)
-        shutil.rmtree(wt, ignore_errors=True); shutil.rmtree(wt + '.out', ignore_errors=True)
-json.dump(results, open(os.path.join(VERIF, 'seeded', 'benign', 'result.json'), 'w'), indent=1)
-sys.exit(1 if any(r.get('alarms') or r.get('error') for r in results.values()) else 0)   # B1 changes an expansion the repo's tests pin, so tests_pass is only recorded
+        drop(wt); drop(wt + '_base')
+        json.dump(results, open(RES, 'w'), indent=1)
+sys.exit(1 if any(r.get('alarms') or r.get('error') for k, r in results.items() if not k.startswith('_')) else 0)   # B1 changes an expansion the repo's tests pin, so tests_pass is only recorded
